@@ -143,6 +143,45 @@ def short(x, n=200):
     return s if len(s) <= n else s[:n] + '...'
 
 
+def merge_variants(m, spec, v, nspec, rng):
+    """Class mappings in which an optional attribute is supplied through a
+    merge key ('<<') with a value of another scalar kind (bool for int is the
+    one isinstance() would let through)."""
+    from checks import c18
+    from vlib import nodes as N
+    from vlib import scalars as S
+    out = []
+    for p, s in D.paths(nspec):
+        if s[0] != 'map':
+            continue
+        try:
+            kind, sub = c18.value_at(v, nspec, p)
+        except (c18.NoWalk, IndexError, KeyError, TypeError):
+            continue
+        cname = type(sub).__name__
+        if kind != 'value' or getattr(sub, '_v_args', None) is None or \
+                cname not in m.cspecs:
+            continue
+        opts = [q for q in m.cspecs[cname].get('params', [])
+                if 'default' in q]
+        if not opts:
+            continue
+        q = rng.choice(opts)
+        pairs = [kv for kv in s[1] if not (
+            kv[0][0] == 's' and kv[0][2] in (q['name'],
+                                             q['name'].replace('_', '-')))]
+        val = rng.choice([N.s_bool(True), N.s_bool('false'), N.s_int(1),
+                          N.s_str('x'), ['seq', [N.s_int(1), N.s_bool(True)],
+                                         S.TAG_SEQ]])
+        pairs.insert(rng.randint(0, len(pairs)), [
+            ['s', S.TAG_MERGE, '<<'],
+            ['map', [[N.s_str(q['name']), val]], S.TAG_MAP]])
+        out.append(D.set_at(nspec, p, ['map', pairs] + s[2:]))
+        if len(out) >= 2:
+            break
+    return out
+
+
 def shard(ctx):
     n_models = ctx.budget(12000, 150000)
     for i in range(n_models):
@@ -153,6 +192,15 @@ def shard(ctx):
             continue
         for text, meta in st.cases(spec, m, n_values=2):
             run_case(ctx, spec, text, meta)
+            if meta.get('origin') == 'valid' and ctx.rng.random() < 0.5:
+                for msp in merge_variants(m, spec, meta['value'],
+                                          meta['spec'], ctx.rng):
+                    try:
+                        t2 = D.render(msp, 'block')
+                    except (ValueError, RecursionError):
+                        continue
+                    ctx.count('merge_key_variants')
+                    run_case(ctx, spec, t2, {'origin': 'merge'})
 
 
 def replay(ctx, case):
